@@ -340,15 +340,17 @@ def do_replay(pid, path):
     return 1 if bad else 0
 
 
-def corpus_cases(comp, pid):
+def corpus_cases(comp, pid, tier=None):
     """Corpus of one component: corpus/<component>/*.ops, plus corpus/<component>/only_<ID>_<ID>.../*.ops - (long)
-    cases that run for the named properties only."""
+    cases that run for the named properties only - plus corpus/<component>/thorough_<ID>_<ID>.../*.ops - (very long)
+    cases that run for the named properties in the thorough tier and in the witness search (tier=None) only."""
     cdir = os.path.join(CORPUS, comp)
     cases = []
     if os.path.isdir(cdir):
         files = [os.path.join(cdir, fn) for fn in sorted(os.listdir(cdir)) if fn.endswith(".ops")]
         for sub in sorted(os.listdir(cdir)):
-            if sub.startswith("only_") and pid in sub.split("_")[1:] and os.path.isdir(os.path.join(cdir, sub)):
+            scoped = sub.startswith("only_") or (sub.startswith("thorough_") and tier in (None, "thorough"))
+            if scoped and pid in sub.split("_")[1:] and os.path.isdir(os.path.join(cdir, sub)):
                 files += [os.path.join(cdir, sub, fn) for fn in sorted(os.listdir(os.path.join(cdir, sub))) if fn.endswith(".ops")]
         for path in files:
             cases.append(expand_ops([l.rstrip("\n") for l in open(path) if l.strip()]))
@@ -440,7 +442,7 @@ def main():
             cmp = props.cmp_for(comp)
             cases = []
             cdir = os.path.join(CORPUS, comp)
-            cases += corpus_cases(comp, pid)
+            cases += corpus_cases(comp, pid, tier)
             ncorpus = len(cases)
             cases += gen(seed, tier)
             res, trouble = run_cases(cases)
@@ -512,6 +514,25 @@ def main():
             if hits:
                 found = (name, hits[0])
                 break
+        witness_case = None
+        if not found:
+            # the corpus cases reserved for the thorough tier / the witness search (too long for every quick run):
+            # implementation only, through the property's oracles
+            seen = {"\n".join(c) for c in corpus_cases(comp, pid, tier)}
+            for wc in corpus_cases(comp, pid, None):
+                if "\n".join(wc) in seen:
+                    continue
+                rcw, ow, _ew = run_side(HBIN, wc)
+                if len(ow) != len(wc):
+                    continue
+                for name, orc in P.get("oracles", {}).items():
+                    hits = [h for h in orc(wc, ow) if not match_known(known, pid, h)]
+                    if hits:
+                        found = (name, hits[0])
+                        witness_case = wc
+                        break
+                if found:
+                    break
         # a listed known finding never hides a broken correspondence: only violations that are NOT known count here
         unknown_violations = [v for v in violations if not match_known(known, pid, v)]
         payload = {"property": pid, "component": comp, "case": small,
@@ -522,6 +543,9 @@ def main():
         if found and not unknown_violations:
             payload["kind"] = "implementation fails property oracle (found after correspondence broke)"
             payload["what"] = found[1]["text"]
+            if witness_case is not None:
+                payload["disagreeing_case"] = small
+                payload["case"] = witness_case
             path = write_replay(pid, "oracle", payload)
             violations.append({"kind": "oracle", "sig": found[1].get("sig", {}), "text": found[1]["text"], "replay": path})
         elif not unknown_violations:
